@@ -86,7 +86,7 @@ func direction(v ssa.Value, depth int) int {
 }
 
 func c14(c *core.Ctx) {
-	c.Explain("C14 (hooks): decided statically — R1 every wrapper kind of HookWrapper is read in initPluginHooks, appended in plugin order, folded over the existing hook and stored back to the matching Hooks field; R2 every fold visits its wrapper slice from last to first (first plugin outermost); R3 every wrapper a plugin installs returns a closure that calls its `pre` argument exactly once on every accepting path, forwarding its own parameters; R4 hook verdicts gate the effects: SUBSCRIBE (no store call under a hook error, per-topic call guarded by code<0x80 where the code derives from that topic's Error, the stored subscription is the request's Sub), PUBLISH (deliver and retained update unreachable under hook error / nil message, both use req.Message and lie after the hook), WILL (deliver unreachable when the hook dropped the message and the delivered message is req.Message); R5 the number of call sites of each hook kind equals the frozen inventory (a second site = double firing).")
+	c.Explain("C14 (hooks): decided statically — R1 every wrapper kind of HookWrapper is read in initPluginHooks, appended in plugin order, folded over the existing hook and stored back to the matching Hooks field; R2 every fold visits its wrapper slice from last to first (first plugin outermost); R3 every wrapper a plugin installs returns a closure that calls its `pre` argument exactly once on every accepting path, forwarding its own parameters; R4 hook verdicts gate the effects: SUBSCRIBE (no store call under a hook error, per-topic call guarded by code<0x80 where the code derives from that topic's Error, the stored subscription is the request's Sub), PUBLISH (deliver and retained update unreachable under hook error / nil message, both use req.Message and lie after the hook), WILL (deliver unreachable when the hook dropped the message and the delivered message is req.Message); R5 the number of call sites of each hook kind equals the frozen inventory (a second site = double firing). Added in the second round: R6 no state change of package server is conditional on the presence of an optional hook; the retained update is decided by the message the hook returned.")
 	c.NotDecided("that each hook fires exactly once per event over all histories; CONNECT verdicts are decided under C19")
 	p := c.P
 	initHooks := p.Func("server", "(*server).initPluginHooks")
